@@ -75,9 +75,14 @@ class DataSet:
             if address_end > from_pos:
                 address = line[from_pos:address_end]
                 from_pos = address_end
+            else:
+                # No (further) data set on this line. Trailing text without value is ignored.
+                return (-1, address, values)
 
             while from_pos > 0:
                 value_end_pos = line.find(")", from_pos)
+                if value_end_pos == -1:
+                    raise ValueError("Data set value is not terminated by ')'.")
                 values.append(DataSetValue.parse(line[from_pos + 1 : value_end_pos]))
                 from_pos = value_end_pos + 1
 
